@@ -92,8 +92,15 @@ pub fn fuzz_entry(id: &str, bytes: &[u8]) -> Verdict {
     match id {
         "C01" => c01::fuzz_entry(bytes),
         "C02" => c02::fuzz_entry(bytes),
+        "C03" => c03::fuzz_entry(bytes),
         "C04" => c04::fuzz_entry(bytes),
+        "C05" => c05::fuzz_entry(bytes),
+        "C06" => c06::fuzz_entry(bytes),
+        "C07" => c07::fuzz_entry(bytes),
+        "C08" => c08::fuzz_entry(bytes),
+        "C09" => c09::fuzz_entry(bytes),
         "C11" => c11::fuzz_entry(bytes),
+        "C12" => c12::fuzz_entry(bytes),
         "C14" => c14::fuzz_entry(bytes),
         "C15" => c15::fuzz_entry(bytes),
         "C17" => c17::fuzz_entry(bytes),
